@@ -321,6 +321,11 @@ def main(inp, emit):
     return [h, i]
 '''
 
+# known finding C01/finalisation-delayed-until-gc: the same program WITHOUT gc.collect() — its result depends on
+# objects being finalised by reference counting as soon as the function that held them returns
+PROGRAMS['finalizers_nogc'] = PROGRAMS['finalizers'].replace('        gc.collect()\n', '')
+KNOWN_FINDING_PROGRAMS = {'finalizers_nogc'}
+
 GHOST = '''
 class Svc:
     def handle(self, n):
@@ -384,7 +389,7 @@ class Hosts:
         self.files['ghost'] = 'host_ghost.py'
 
     def names(self):
-        return sorted(n for n in self.modules if n != 'probe')
+        return sorted(n for n in self.modules if n != 'probe' and n not in KNOWN_FINDING_PROGRAMS)
 
     def classes(self, name):
         mod = self.modules[name]
